@@ -272,4 +272,82 @@ proof {
     }
 }
 @end
+
+@fn src/filedb/inner/dbxxx.rs | impl<KT: DbMapKeyType> FileDbXxxInner<KT> | store_value_on_insert
+@opts rlimit=150
+@serves C01 C08
+@requires
+old(self).inv(), small(old(self).mb()), piece_offset.val != 0, value@.len() <= 0x100_0000,
+exists|w: MapW| #[trigger] map_ok(old(self).mb(), w) && is_key(w.kw, piece_offset.val as nat),
+forall|w: MapW| #[trigger] map_ok(old(self).mb(), w) && is_key(w.kw, piece_offset.val as nat) ==> kkey(w.kw, piece_offset.val as nat).len() <= 0x1_0000
+@ensures
+final(self).same_env(old(self)), final(self).dirty == old(self).dirty, final(self).hf() == old(self).hf(),
+old(self).healthy() ==> r is Ok,
+r is Ok && r->Ok_0.val == piece_offset.val ==> forall|w: MapW| #[trigger] map_ok(old(self).mb(), w) && is_key(w.kw, piece_offset.val as nat) ==>
+    exists|w2: MapW| #[trigger] map_ok(final(self).mb(), w2) && is_insert(w, w2, kkey(w.kw, piece_offset.val as nat), value@)
+@entry
+let ghost m = old(self).mb();
+let ghost ko = piece_offset.val as nat;
+let ghost w0: MapW = choose|w: MapW| #[trigger] map_ok(m, w) && is_key(w.kw, ko);
+let ghost voff0 = kvoff(w0.kw, ko);
+proof {
+    assert(key_at(m.kb, m.kpm, w0.kw, ko));
+    lemma_val_link(w0.kw, w0.vw, w0.vown, ko);
+    lemma_key_decodes(m.kb, m.kpm, w0.kw, ko);
+    lemma_val_decodes(m.vb, m.vpm, w0.vw, voff0);
+    assert(val_at(m.vb, m.vpm, w0.vw, voff0));
+    assert(slot_ok(m.vb, voff0, w0.vw.slots[voff0]));
+    lemma_slot_bounds(m.vb, voff0, w0.vw.slots[voff0]);
+}
+@before-call write_piece 1
+proof {
+    assert(val_at(self.vf().bytes, m.vpm, w0.vw, voff0));
+    assert(heap_ok(self.vf().bytes, m.vpm, w0.vw) && val_pre(self.vf().bytes, m.vpm, w0.vw, false, voff0));
+}
+@before-call write_piece 2
+proof {
+    assert(heap_ok(self.kf().bytes, m.kpm, w0.kw) && key_pre(self.kf().bytes, m.kpm, w0.kw, false, ko));
+    let tv = w_write(w0.vw, m.vb.len(), false, voff0, val_need(value@), SlotC::Val(value@));
+    lemma_roundup_val(value@);
+    lemma_write_effect(m.vb, m.vpm, w0.vw, voff0, val_need(value@), SlotC::Val(value@));
+}
+@exit
+proof {
+    if r__ is Ok && r__->Ok_0.val == piece_offset.val {
+        let m2 = self.mb();
+        assert forall|w: MapW| #[trigger] map_ok(m, w) && is_key(w.kw, ko) implies
+            exists|w2: MapW| #[trigger] map_ok(m2, w2) && is_insert(w, w2, kkey(w.kw, ko), value@) by {
+            lemma_key_same(m, w0, w, ko);
+            lemma_val_link(w.kw, w.vw, w.vown, ko);
+            let voff = kvoff(w.kw, ko);
+            assert(heap_ok(m.vb, m.vpm, w.vw) && val_pre(m.vb, m.vpm, w.vw, false, voff));
+            lemma_roundup_val(value@);
+            let tv = w_write(w.vw, m.vb.len(), false, voff, val_need(value@), SlotC::Val(value@));
+            assert(heap_ok(m2.vb, m.vpm, tv.0));
+            lemma_write_effect(m.vb, m.vpm, w.vw, voff, val_need(value@), SlotC::Val(value@));
+            if tv.1 == voff {
+                // value rewritten in place: the key file is untouched
+                lemma_set_effect(w.kw, ko, w.kw.slots[ko]);
+                assert(w_set(w.kw, ko, w.kw.slots[ko]).slots =~= w.kw.slots);
+                lemma_map_update(m, m2, w, w.kw, tv.0, ko, voff, value@);
+                let w2 = MapW { kw: w.kw, vw: tv.0, cs: w.cs, vown: w.vown.remove(voff).insert(voff, ko) };
+                assert(map_ok(m2, w2) && is_insert(w, w2, kkey(w.kw, ko), value@));
+            } else {
+                let kc = SlotC::Key(kkey(w.kw, ko), tv.1, knext(w.kw, ko));
+                let kn = key_need(kkey(w.kw, ko), tv.1, knext(w.kw, ko));
+                lemma_key_decodes(m.kb, m.kpm, w.kw, ko);
+                lemma_roundup_key(kkey(w.kw, ko), tv.1, knext(w.kw, ko));
+                assert(heap_ok(m.kb, m.kpm, w.kw) && key_pre(m.kb, m.kpm, w.kw, false, ko));
+                let tk = w_write(w.kw, m.kb.len(), false, ko, kn, kc);
+                assert(heap_ok(m2.kb, m.kpm, tk.0));
+                lemma_write_effect(m.kb, m.kpm, w.kw, ko, kn, kc);
+                assert(tk.1 == ko);
+                lemma_map_update(m, m2, w, tk.0, tv.0, ko, tv.1, value@);
+                let w2 = MapW { kw: tk.0, vw: tv.0, cs: w.cs, vown: w.vown.remove(voff).insert(tv.1, ko) };
+                assert(map_ok(m2, w2) && is_insert(w, w2, kkey(w.kw, ko), value@));
+            }
+        }
+    }
+}
+@end
 @endmod
